@@ -57,7 +57,10 @@ xtextlen(const char *str)
 					((*str >= 'A') && (*str <= 'F'))))
 				return -1;
 
-			addrspec[idx++] = hexdigit(str - 1);
+			addrspec[idx] = hexdigit(str - 1);
+			/* an encoded NUL would hide everything behind it from the address check */
+			if (addrspec[idx++] == '\0')
+				return -1;
 
 			str++;
 			result += 3;
